@@ -1,6 +1,6 @@
 //! Utility for Qt naming convention.
 
-use std::collections::HashMap;
+use std::collections::{HashMap, HashSet};
 
 /// File naming rules.
 #[derive(Clone, Debug, Eq, PartialEq)]
@@ -73,6 +73,7 @@ impl Default for FileNameRules {
 #[derive(Clone, Debug, Default)]
 pub struct UniqueNameGenerator {
     used_prefixes: HashMap<String, usize>, // prefix: next count
+    used_names: HashSet<String>, // a prefix may end with digits: "label" + 1 == "label1" + 0
 }
 
 impl UniqueNameGenerator {
@@ -87,8 +88,12 @@ impl UniqueNameGenerator {
     {
         let prefix = prefix.as_ref();
         let count = self.used_prefixes.entry(prefix.to_owned()).or_insert(0);
-        let id = concat_number_suffix(prefix, *count);
-        *count += 1;
+        let (n, id) = (*count..)
+            .map(|n| (n, concat_number_suffix(prefix, n)))
+            .find(|(_, id)| !self.used_names.contains(id))
+            .expect("unused id must be found");
+        *count = n + 1;
+        self.used_names.insert(id.clone());
         id
     }
 
@@ -104,17 +109,12 @@ impl UniqueNameGenerator {
     {
         let prefix = prefix.as_ref();
         let count = self.used_prefixes.entry(prefix.to_owned()).or_insert(0);
-        let (n, id) = (*count..=*count + reserved_map.len())
-            .find_map(|n| {
-                let id = concat_number_suffix(prefix, n);
-                if reserved_map.contains_key(&id) {
-                    None
-                } else {
-                    Some((n, id))
-                }
-            })
-            .expect("unused id must be found within N+1 tries");
+        let (n, id) = (*count..)
+            .map(|n| (n, concat_number_suffix(prefix, n)))
+            .find(|(_, id)| !reserved_map.contains_key(id) && !self.used_names.contains(id))
+            .expect("unused id must be found");
         *count = n + 1;
+        self.used_names.insert(id.clone());
         id
     }
 }
